@@ -3,6 +3,7 @@ from __future__ import annotations
 
 import atexit
 import logging
+import os
 import math
 import pathlib
 import random as pyrandom
@@ -59,10 +60,12 @@ RULE = ("h5 pool: files with 1..9 slices, content value = 1000*file + slice; dat
         "non-trivial = at least 2 readable files and (a filter or context >= 1) for h5 cases, >= 2 members for concat cases, "
         "a multi-coil or zero-slice access for RNG cases, any oracle case with >= 2 volumes or a perturbed global RNG; "
         "distinct = distinct protocol line / oracle case key")
-PENDING_FINDINGS: list[str] = []
+PENDING_FINDINGS: list[str] = ["directory-listing-order-unsorted", "duplicate-filenames-ranges-not-partition",
+                               "cmrxrecon-config-regex-filter-typeerror"]
 
-for _n in ("H5SliceData", "FakeMRIBlobsDataset", "SheppLoganDataset", "ConcatDataset", "FakeMRIData", "direct"):
-    logging.getLogger(_n).setLevel(logging.ERROR)
+for _n in ("H5SliceData", "FakeMRIBlobsDataset", "SheppLoganDataset", "ConcatDataset", "FakeMRIData", "direct",
+           "FastMRIDataset", "CalgaryCampinasDataset", "CMRxReconDataset"):
+    logging.getLogger(_n).setLevel(logging.CRITICAL)
 
 
 def ok(*groups) -> str:
@@ -235,6 +238,277 @@ def impl_locate(sizes, idx):
     return run
 
 
+# --------------------------------------------------------------------------------------------------
+# phase 2: the other dataset classes, file selection, directory listing order
+_XML = ('<?xml version="1.0"?><ismrmrdHeader xmlns="http://www.ismrm.org/ISMRMRD"><encoding><encodedSpace><matrixSize>'
+        '<x>2</x><y>2</y><z>1</z></matrixSize></encodedSpace><reconSpace><matrixSize><x>2</x><y>2</y><z>1</z></matrixSize>'
+        '</reconSpace><encodingLimits><kspace_encoding_step_1><minimum>0</minimum><maximum>1</maximum><center>1</center>'
+        '</kspace_encoding_step_1></encodingLimits></encoding></ismrmrdHeader>')
+_CMR_DT = np.dtype([("real", "f4"), ("imag", "f4")])
+MISSING = 999      # id of a file name that does not exist
+
+
+def _name_id(p) -> int:
+    return int("".join(ch for ch in pathlib.Path(p).stem if ch.isdigit()))
+
+
+class World:
+    """main/ (FastMRI-compatible h5), extra/ (same names, other content), sub*/ (hard links created in shuffled order),
+    lists/ (.lst files), cc/ (Calgary-Campinas layout), cmr/ (CMRxRecon .mat = h5 with compound real/imag)."""
+
+    def __init__(self, base: str | None = None, seed: int = 0):
+        import h5py
+
+        rng = pyrandom.Random(seed)
+        self.dir = pathlib.Path(tempfile.mkdtemp(prefix="verif_c12w_", dir=base))
+        atexit.register(self.close)
+        self.main, self.extra, self.lists, self.cc, self.cmr = (self.dir / k for k in ("main", "extra", "lists", "cc", "cmr"))
+        for d in (self.main, self.extra, self.lists, self.cc, self.cmr):
+            d.mkdir()
+        self.n: dict[int, int] = {MISSING: -1}
+        self.nx: dict[int, int] = {MISSING: 0}
+        order = list(range(1, 14))
+        rng.shuffle(order)                                   # creation order != name order
+        for fid in order:
+            if fid == 13:
+                (self.main / "vol013.h5").write_bytes(b"not hdf5")
+                self.n[fid], self.nx[fid] = -1, 0
+                continue
+            n = [1, 2, 3, 4, 5, 6, 1, 2, 3, 3, 2, 4][fid - 1]
+            with h5py.File(self.main / f"vol{fid:03d}.h5", "w") as h:
+                h.create_dataset("kspace", data=_const((n, 1, 2, 2), 1000 * fid, np.complex64))
+                h.create_dataset("ismrmrd_header", data=_XML)
+                h.attrs["max"] = 1.0
+            nx = n + (2 if fid % 3 == 0 else 0)
+            with h5py.File(self.extra / f"vol{fid:03d}.h5", "w") as h:
+                for key in ("recon", "kspace"):
+                    h.create_dataset(key, data=_const((nx, 1, 2, 2), 500000 + 1000 * fid, np.complex64))
+            self.n[fid], self.nx[fid] = n, nx
+        self.subs = []
+        for k, size in enumerate([0, 2, 3, 4, 5, 6]):
+            d = self.dir / f"sub{k}"
+            d.mkdir()
+            members = rng.sample(range(1, 14), size)
+            for fid in members:                              # creation order = sample order
+                os.link(self.main / f"vol{fid:03d}.h5", d / f"vol{fid:03d}.h5")
+            self.subs.append(d)
+        self.list_files = []
+        for j in range(5):
+            members = rng.sample(range(1, 14), rng.randint(0, 4))
+            (self.lists / f"l{j}.lst").write_text("# a comment\n" + "".join(f"vol{f:03d}.h5\n" for f in members))
+            self.list_files.append((f"l{j}.lst", members))
+        # Calgary-Campinas: (slices, ny, nz, 2 * coils) real-valued
+        self.cc_n = {201: 1, 202: 3, 203: 99, 204: 100, 205: 101, 206: 102, 207: 104}
+        for fid, n in self.cc_n.items():
+            with h5py.File(self.cc / f"vol{fid:03d}.h5", "w") as h:
+                h.create_dataset("kspace", data=_const((n, 2, 8, 2), 1000 * fid, np.float32))
+        # CMRxRecon: (slices a, frames b, coils, ny, nx) compound
+        self.cmr_shape = {301: (1, 1), 302: (1, 3), 303: (2, 1), 304: (2, 3), 305: (3, 2), 306: (3, 4), 307: (-1, -1)}
+        for fid, (a, b) in self.cmr_shape.items():
+            if a < 0:
+                (self.cmr / f"vol{fid:03d}.mat").write_bytes(b"not hdf5")
+                continue
+            arr = np.zeros((a, b, 2, 2, 3), _CMR_DT)
+            for k in range(a):
+                for l in range(b):
+                    arr["real"][k, l] = 10000 * (fid - 300) + 100 * k + l
+                    arr["imag"][k, l] = 1
+            with h5py.File(self.cmr / f"vol{fid:03d}.mat", "w") as h:
+                h.create_dataset("kspace_full", data=arr)
+
+    def close(self):
+        shutil.rmtree(self.dir, ignore_errors=True)
+
+
+def _const(shape, base, dtype):
+    n = shape[0]
+    return (base + np.arange(n)).astype(dtype).reshape((n,) + (1,) * (len(shape) - 1)) * np.ones(shape, dtype)
+
+
+_WORLD: World | None = None
+
+
+def world() -> World:
+    global _WORLD
+    if _WORLD is None or not _WORLD.dir.exists():
+        _WORLD = World()
+    return _WORLD
+
+
+def _cc_id(ks: np.ndarray) -> int:
+    """Calgary item: (coils, ny, nz) complex, value v + iv, columns above ceil(0.85 nz) zeroed"""
+    body, tail = ks[..., :7], ks[..., 7:]
+    vals = np.unique(body)
+    if len(vals) != 1 or vals[0].real != vals[0].imag or np.any(tail != 0):
+        return -999
+    return int(round(float(vals[0].real)))
+
+
+def _gen_dataset_case(rng: pyrandom.Random, W: World):
+    """-> dict(kwargs for the real class, cls name, protocol groups, bucket)"""
+    cls = rng.choice(["h5", "h5", "fastmri", "calgary"])
+    calg = cls == "calgary"
+    main = W.cc if calg else W.main
+    ids_all = sorted(W.cc_n) if calg else list(range(1, 14))
+    nmap = dict(W.cc_n) if calg else {f: W.n[f] for f in ids_all}
+    nmap[MISSING] = -1
+    mode = rng.choice([0, 0, 1, 1, 1, 2, 2, 3])
+    kw: dict = {}
+    root = main
+    flt: list[int] = []
+    lists: list[list[int]] = []
+    root_given = 1
+    if mode in (1, 3):
+        pool_ = ids_all + [MISSING]
+        flt = rng.sample(pool_, rng.choice([0, 1, 2, 3, 3, 4, 5]))
+        if flt and rng.random() < 0.12:
+            flt.insert(rng.randrange(len(flt) + 1), rng.choice(flt))          # a repeated name
+        kw["filenames_filter"] = [main / f"vol{f:03d}.h5" for f in flt]
+    if mode in (2, 3):
+        if calg:
+            mode = 1 if mode == 3 else 0
+        else:
+            chosen = rng.sample(W.list_files, rng.randint(1, 2))
+            lists = [m for _, m in chosen]
+            kw["filenames_lists"] = [nm for nm, _ in chosen]
+            root_given = int(rng.random() < 0.85)
+            if root_given:
+                kw["filenames_lists_root"] = W.lists
+    if mode == 0 and not calg and rng.random() < 0.7:
+        root = rng.choice(W.subs)
+    listing = [_name_id(p) for p in root.glob("*.h5")]
+    has_regex = int(rng.random() < 0.35)
+    regex_ids: list[int] = []
+    if has_regex:
+        cand = sorted(set(flt if mode in (1, 3) else [f for l in lists for f in l] if mode == 2 else listing))
+        if cand and rng.random() < 0.85:
+            want = rng.sample(cand, rng.randint(1, len(cand)))
+        else:
+            want = rng.sample(ids_all, rng.randint(0, min(4, len(ids_all))))
+        pat = r".*vol(" + "|".join(f"{f:03d}" for f in want) + r")\.h5" if want else r".*nothing"
+        kw["regex_filter"] = pat
+        import re
+        regex_ids = [f for f in ids_all + [MISSING] if re.match(pat, str(root / f"vol{f:03d}.h5"))]
+    ctx_arg = rng.choice([0, 0, 1, 2])
+    sl, fgrp, tag = gen_filter(rng) if rng.random() < 0.5 else (None, [0], "nofilter")
+    crop = int(calg and rng.random() < 0.7)
+    has_extra = 0
+    xkey = None
+    if not calg and rng.random() < 0.4:
+        has_extra = 1
+        if cls == "h5" and rng.random() < 0.5:
+            kw["sensitivity_maps"] = W.extra
+            xkey = "sensitivity_map"
+        else:
+            kw["pass_h5s"] = {"extra": ("recon", W.extra)}
+            xkey = "extra"
+    if cls == "h5":
+        kw.update(root=root, kspace_context=ctx_arg, slice_data=sl)
+    elif cls == "fastmri":
+        kw.update(data_root=root, kspace_context=ctx_arg, slice_data=sl)      # both are swallowed by **kwargs
+    else:
+        kw.update(data_root=root, crop_outer_slices=bool(crop), kspace_context=ctx_arg)
+    pool_ids = ids_all + [MISSING]
+    bound = sum(max(nmap[f], 0) for f in pool_ids) * (2 if (flt and len(set(flt)) < len(flt)) or mode == 2 else 1)
+    bound = min(bound, 60)
+    idxs = list(range(-bound - 1, bound + 1))
+    if len(idxs) > 40:
+        idxs = rng.sample(idxs, 40) + [0, -1]
+    hdr = [{"h5": 0, "fastmri": 1, "calgary": 2}[cls], crop, ctx_arg, mode, root_given, has_regex, has_extra]
+    groups = [hdr, fgrp, pool_ids, [nmap[f] for f in pool_ids], listing, flt, regex_ids,
+              [0 if calg else W.nx.get(f, 0) for f in pool_ids], idxs] + lists
+    eff_ctx = ctx_arg if cls == "h5" else 0
+    bucket = (f"dataset/{cls}/{['listing', 'filter', 'lists', 'filter+lists'][mode]}"
+              f"{'/regex' if has_regex else ''}{'/extra' if has_extra else ''}/ctx{eff_ctx}")
+    return {"cls": cls, "kw": kw, "groups": groups, "idxs": idxs, "xkey": xkey, "ctx": eff_ctx, "bucket": bucket,
+            "nontrivial": True}
+
+
+def _build_cls(cls: str, kw: dict):
+    from direct.data.datasets import CalgaryCampinasDataset, FastMRIDataset
+    from direct.data.h5_data import H5SliceData
+
+    return {"h5": H5SliceData, "fastmri": FastMRIDataset, "calgary": CalgaryCampinasDataset}[cls](**kw)
+
+
+def impl_dataset(case: dict):
+    def run():
+        try:
+            ds = _build_cls(case["cls"], case["kw"])
+        except (ValueError, NotImplementedError) as e:
+            return "err " + err_name(e)
+        vi = list(ds.volume_indices.items())
+        groups = [[_name_id(f) for f, _ in ds.data], [s for _, s in ds.data], [_name_id(f) for f, _ in vi],
+                  [r.start for _, r in vi], [r.stop for _, r in vi]]
+        c = case["ctx"]
+        for i in case["idxs"]:
+            try:
+                it = ds[i]
+            except IndexError:
+                groups.append([-1, 2])
+                continue
+            fid = _name_id(it["filename"])
+            if case["cls"] == "calgary":
+                g = [fid, it["slice_no"], _cc_id(it["kspace"])]
+            else:
+                g = [fid, it["slice_no"]] + window_ids(it["kspace"], c)
+            if case["xkey"]:
+                g += [-7] + window_ids(it[case["xkey"]], c)
+            groups.append(g)
+        return ok(*groups)
+    return run
+
+
+def _cmr_decode(ks: np.ndarray, ctx) -> list[int]:
+    """-> flat [k0, l0, k1, l1, …] of the (slice, frame) blocks found along the context axis (file tag stripped)"""
+    blocks = [ks] if ctx is None else [ks[:, j] for j in range(ks.shape[1])]
+    out = []
+    for b in blocks:
+        vals = np.unique(b)
+        if len(vals) != 1 or vals[0].imag != 1:
+            return [-999]
+        v = int(round(float(vals[0].real))) % 10000
+        out += [v // 100, v % 100]
+    return out
+
+
+def _gen_cmr_case(rng: pyrandom.Random, W: World):
+    ctx = rng.choice([None, "slice", "time"])
+    ids_all = sorted(W.cmr_shape)
+    if rng.random() < 0.3:
+        ids = [_name_id(p) for p in W.cmr.glob("*.mat")]
+        kw = dict(data_root=W.cmr)
+    else:
+        ids = rng.sample(ids_all + [MISSING], rng.randint(0, 5))
+        kw = dict(data_root=W.cmr, filenames_filter=[W.cmr / f"vol{f:03d}.mat" for f in ids])
+    kw.update(kspace_context=ctx, compute_mask=rng.random() < 0.3)
+    shp = {**W.cmr_shape, MISSING: (-1, -1)}
+    total = sum({None: a * b, "slice": a, "time": b}[ctx] for a, b in (shp[f] for f in ids) if a > 0)
+    idxs = list(range(-total - 1, total + 1))
+    groups = [[{None: 0, "slice": 1, "time": 2}[ctx], int("filenames_filter" in kw)], ids, [shp[f][0] for f in ids], [shp[f][1] for f in ids], idxs]
+    return {"kw": kw, "ctx": ctx, "groups": groups, "idxs": idxs,
+            "bucket": f"cmr/ctx-{ctx}/{'filter' if 'filenames_filter' in kw else 'listing'}", "nontrivial": len(ids) >= 2}
+
+
+def impl_cmr(case: dict):
+    from direct.data.datasets import CMRxReconDataset
+
+    def run():
+        ds = CMRxReconDataset(**case["kw"])
+        vi = list(ds.volume_indices.items())
+        groups = [[_name_id(f) for f, _ in ds.data], [int(s) for _, s in ds.data], [_name_id(f) for f, _ in vi],
+                  [r.start for _, r in vi], [r.stop for _, r in vi]]
+        for i in case["idxs"]:
+            try:
+                it = ds[i]
+            except IndexError:
+                groups.append([-1, 2])
+                continue
+            groups.append([_name_id(it["filename"]), int(it["slice_no"])] + _cmr_decode(it["kspace"], case["ctx"]))
+        return ok(*groups)
+    return run
+
+
 # ---- recording of numpy's global stream --------------------------------------------------------
 class RngRecorder:
     """Records calls to np.random.seed/uniform/randn (module functions = the global stream) and constructions of
@@ -379,7 +653,21 @@ def correspondence(ctx: Ctx):
         idxs += [rng.choice(idxs) for _ in range(3)]       # repeated accesses
         yield {"line": pline("items", fgrp, fids, ns, [c], idxs), "impl": impl_items(P, fids, sl, c, idxs),
                "nontrivial": nontriv and total > 0, "bucket": "items:" + bucket}
+    # ---- the dataset classes end to end: file selection -> parse -> items
+    W = world()
+    for t in range(ctx.budget(150, 2000)):
+        case = _gen_dataset_case(rng, W)
+        yield {"line": pline("dataset", *case["groups"]), "impl": impl_dataset(case), "nontrivial": case["nontrivial"],
+               "bucket": case["bucket"]}
+    for t in range(ctx.budget(60, 600)):
+        case = _gen_cmr_case(rng, W)
+        yield {"line": pline("cmr", *case["groups"]), "impl": impl_cmr(case), "nontrivial": case["nontrivial"],
+               "bucket": case["bucket"]}
     # ---- ConcatDataset.locate
+    for sizes, idx in [([3, 0, 2], 10 ** 12), ([3, 0, 2], -10 ** 12), ([1] * 5, 2 ** 63), ([4, 4], -(2 ** 63)), ([2, 3], 2), ([2, 3], -3),
+                       ([2, 3], -4), ([2, 0, 0, 3], 2), ([0, 0], 0), ([0, 0], -1)]:
+        yield {"line": pline("locate", sizes, [idx]), "impl": impl_locate(sizes, idx), "nontrivial": True,
+               "bucket": "concat/boundary-or-huge"}
     for t in range(ctx.budget(400, 6000)):
         k = rng.choice([0, 1, 1, 2, 2, 3, 4, 5]) if rng.random() < 0.1 else rng.randint(1, 5)
         sizes = [rng.choice([0, 0, 1, 1, 2, 3, 5, 9]) if rng.random() < 0.5 else rng.randint(0, 12) for _ in range(k)]
@@ -607,6 +895,274 @@ def oracle(ctx: Ctx, deep: bool = False):
             yield Violation("shepp-ranges-not-a-partition", "SheppLoganDataset.volume_indices is not range(0, len)", rep)
         zero = [bool(np.allclose(ds.sample_image(i), 0)) for i in range(len(ds))]
         yield from _repro(ds, twin, rng, rep, "shepp", lambda i: zero[i])
+    yield from _oracle_phase2(ctx, deep)
+
+
+def _mapping(ds):
+    """index -> (file name, slice) plus the volume ranges by file name"""
+    return ([(pathlib.Path(f).name, int(sl)) for f, sl in ds.data],
+            [(pathlib.Path(f).name, r.start, r.stop) for f, r in ds.volume_indices.items()])
+
+
+def _partition_ok(ds) -> bool:
+    cur = 0
+    for r in ds.volume_indices.values():
+        if r.start != cur or r.stop < r.start:
+            return False
+        cur = r.stop
+    return cur == len(ds)
+
+
+def world_digest(path: str) -> str:
+    """a digest of every index mapping and of sample item bytes for datasets built on an existing World directory
+    (run in-process and in subprocesses with different PYTHONHASHSEED)"""
+    import hashlib
+
+    import direct.config.defaults  # noqa: F401
+    from direct.data.datasets import (CalgaryCampinasDataset, CMRxReconDataset, ConcatDataset, FakeMRIBlobsDataset,
+                                      FastMRIDataset, SheppLoganDataset)
+    from direct.data.h5_data import H5SliceData
+
+    d = pathlib.Path(path)
+    h = hashlib.sha1()
+    dss = [H5SliceData(root=d / "main", kspace_context=1, slice_data=slice(None, None, 2), pass_h5s={"x": ("recon", d / "extra")}),
+           H5SliceData(root=d / "sub4"), FastMRIDataset(data_root=d / "sub5"),
+           H5SliceData(root=d / "main", filenames_lists=["l0.lst", "l1.lst", "l2.lst"], filenames_lists_root=d / "lists"),
+           CalgaryCampinasDataset(data_root=d / "cc", crop_outer_slices=True)]
+    dss += [CMRxReconDataset(data_root=d / "cmr", kspace_context=c, extra_keys=None, compute_mask=True) for c in (None, "slice", "time")]
+    dss += [FakeMRIBlobsDataset(sample_size=2, num_coils=2, spatial_shape=(2, 4, 4), seed=3),
+            SheppLoganDataset(shape=(6, 6, 3), num_coils=2, intensity="T1", seed=3)]
+    dss.append(ConcatDataset(dss[:]))
+    for ds in dss:
+        if hasattr(ds, "data") and hasattr(ds, "volume_indices") and not isinstance(ds, FakeMRIBlobsDataset):
+            h.update(repr(_mapping(ds)).encode())
+        for i in range(0, len(ds), max(1, len(ds) // 7)):
+            try:
+                it = ds[i]
+            except Exception as e:  # noqa: BLE001 - reported by the class checks
+                h.update(err_name(e).encode())
+                continue
+            h.update(repr((pathlib.Path(str(it["filename"])).name, int(it["slice_no"]), sorted(it.keys()))).encode())
+            h.update(np.ascontiguousarray(it["kspace"]).tobytes())
+    return h.hexdigest()
+
+
+def _oracle_phase2(ctx: Ctx, deep: bool):
+    import subprocess
+    import sys
+
+    import direct.config.defaults  # noqa: F401
+    from direct.data.datasets import (CalgaryCampinasDataset, CMRxReconDataset, ConcatDataset, FakeMRIBlobsDataset,
+                                      FastMRIDataset, SheppLoganDataset, build_dataset, build_dataset_from_input)
+    from direct.data.h5_data import H5SliceData
+
+    rng = ctx.rng
+    W = world()
+    # (a) the directory listing: same files, created in different orders in two directories -> same dataset?
+    base = "/dev/shm" if os.access("/dev/shm", os.W_OK) else None
+    tmp = pathlib.Path(tempfile.mkdtemp(prefix="verif_c12o_", dir=base))
+    try:
+        names = [f"vol{f:03d}.h5" for f in (1, 2, 3, 4, 5, 6)]
+        maps = []
+        for sub, order in (("a", names), ("b", names[::-1]), ("c", rng.sample(names, len(names)))):
+            (tmp / sub).mkdir()
+            for nm in order:
+                shutil.copy(W.main / nm, tmp / sub / nm)
+            maps.append(_mapping(H5SliceData(root=tmp / sub)))
+        ctx.count(("listing-order", base), True, bucket="oracle/listing-order")
+        want = [nm for nm in sorted(names)]
+        got = [[v[0] for v in m[1]] for m in maps]
+        if any(m != maps[0] for m in maps) or got[0] != want:
+            yield Violation("directory-listing-order-unsorted",
+                            "datasets built from data_root alone (list(root.glob('*.h5')), unsorted) order the volumes as the "
+                            "operating system lists the directory: identical directories give different index -> slice maps",
+                            {"op": "listing-order", "filesystem": base or "tmp", "volume_order_per_directory": got, "sorted": want})
+    finally:
+        shutil.rmtree(tmp, ignore_errors=True)
+    # (b) a file name that occurs twice
+    for kw, what in (({"filenames_filter": [W.main / "vol003.h5", W.main / "vol004.h5", W.main / "vol003.h5"]}, "filenames_filter"),
+                     ({"filenames_lists": ["d1.lst", "d2.lst"], "filenames_lists_root": W.lists}, "filenames_lists")):
+        (W.lists / "d1.lst").write_text("vol003.h5\nvol004.h5\n")
+        (W.lists / "d2.lst").write_text("vol005.h5\nvol003.h5\n")
+        ds = H5SliceData(root=W.main, **kw)
+        ctx.count(("duplicate", what), True, bucket="oracle/duplicate-names")
+        if not _partition_ok(ds):
+            yield Violation("duplicate-filenames-ranges-not-partition",
+                            f"a file named twice in {what}: its slices are in the dataset twice but volume_indices keeps one "
+                            f"range per name, so the ranges no longer partition 0..len-1",
+                            {"op": "duplicate", "via": what, "len": len(ds), "ranges": _mapping(ds)[1]})
+    # (c) the other classes, directly: partition, designation, content
+    for t in range(ctx.budget(40, 500)):
+        case = _gen_dataset_case(rng, W)
+        kw = case["kw"]
+        # the files the constructor arguments select, computed independently (ids; listing order is finding (a))
+        import re
+
+        root = kw.get("root", kw.get("data_root"))
+        if "filenames_filter" in kw:
+            sel_ids, ordered = [_name_id(p) for p in kw["filenames_filter"]], True
+        elif "filenames_lists" in kw:
+            if "filenames_lists_root" not in kw:
+                continue
+            sel_ids, ordered = [f for nm in kw["filenames_lists"] for f in dict(W.list_files)[nm]], True
+        else:
+            sel_ids, ordered = sorted(_name_id(p) for p in os.listdir(root) if p.endswith(".h5")), False
+        if "regex_filter" in kw:
+            sel_ids = [f for f in sel_ids if re.match(kw["regex_filter"], str(pathlib.Path(root) / f"vol{f:03d}.h5"))]
+        if len(set(sel_ids)) < len(sel_ids):
+            continue                                           # repeated names: finding (b)
+        nn = W.cc_n if case["cls"] == "calgary" else W.n
+        sel_ids = [f for f in sel_ids if nn.get(f, -1) > 0]
+        try:
+            ds = _build_cls(case["cls"], kw)
+        except ValueError:
+            continue
+        ctx.count(("cls", case["bucket"], t), True, bucket="oracle/" + case["bucket"])
+        rep = {"op": "class", "cls": case["cls"], "kwargs": {k: str(v) for k, v in kw.items()}}
+        got_ids = [_name_id(f) for f in ds.volume_indices]
+        if (got_ids if ordered else sorted(got_ids)) != sel_ids:
+            yield Violation(f"{case['cls']}-file-selection",
+                            "the volumes of the dataset are not the files selected by filenames_filter / filenames_lists / "
+                            "data_root listing and regex_filter (in that order of precedence, in the given order)",
+                            dict(rep, expected=sel_ids, observed=got_ids))
+            continue
+        if not _partition_ok(ds):
+            yield Violation(f"{case['cls']}-ranges-not-a-partition", "volume_indices do not partition 0..len-1", rep)
+            continue
+        calg = case["cls"] == "calgary"
+        for f, r in ds.volume_indices.items():
+            fid = _name_id(f)
+            n = W.cc_n[fid] if calg else W.n[fid]
+            sl = slice(50, -50) if calg and kw.get("crop_outer_slices") else kw.get("slice_data") if case["cls"] == "h5" else None
+            adm = sorted(list(range(n))[sl]) if sl is not None else list(range(n))
+            if len(adm) != len(r):
+                yield Violation(f"{case['cls']}-range-length", "range length differs from the number of admissible slices",
+                                dict(rep, file=fid, expected=len(adm), observed=len(r)))
+                continue
+            for rank, i in enumerate(r):
+                try:
+                    it = ds[i]
+                except Exception as e:  # noqa: BLE001
+                    yield Violation(f"{case['cls']}-item-raises", f"loading a valid index raises {err_name(e)}", dict(rep, index=i))
+                    break
+                good = (_name_id(it["filename"]), it["slice_no"]) == (fid, adm[rank])
+                if good and calg:
+                    good = _cc_id(it["kspace"]) == 1000 * fid + adm[rank]
+                elif good:
+                    c = case["ctx"]
+                    ref = [1000 * fid + adm[rank] + j if 0 <= adm[rank] + j < n else 0 for j in range(-c, c + 1)]
+                    good = window_ids(it["kspace"], c) == ref
+                    if good and case["xkey"]:
+                        nx = W.nx[fid]
+                        refx = [500000 + 1000 * fid + adm[rank] + j if 0 <= adm[rank] + j < nx else 0 for j in range(-c, c + 1)]
+                        good = window_ids(it[case["xkey"]], c) == refx
+                if not good:
+                    yield Violation(f"{case['cls']}-item-not-designated",
+                                    "item i (or the pass_h5s / sensitivity-map companion) is not the slice its volume range designates",
+                                    dict(rep, index=i, expected=[fid, adm[rank]]))
+                    break
+    for t in range(ctx.budget(12, 100)):
+        case = _gen_cmr_case(rng, W)
+        ids = case["groups"][1]
+        if len(set(ids)) < len(ids):
+            continue
+        ds = CMRxReconDataset(**case["kw"])
+        ctx.count(("cmr", case["bucket"], t), True, bucket="oracle/" + case["bucket"])
+        rep = {"op": "cmr", "kwargs": {k: str(v) for k, v in case["kw"].items()}}
+        if not _partition_ok(ds):
+            yield Violation("cmr-ranges-not-a-partition", "volume_indices do not partition 0..len-1", rep)
+            continue
+        for f, r in ds.volume_indices.items():
+            a, b = W.cmr_shape[_name_id(f)]
+            exp = {None: [[k, l] for k in range(a) for l in range(b)], "slice": [[v for l in range(b) for v in (k, l)] for k in range(a)],
+                   "time": [[v for k in range(a) for v in (k, l)] for l in range(b)]}[case["ctx"]]
+            try:
+                got = [_cmr_decode(ds[i]["kspace"], case["ctx"]) for i in r]
+            except Exception as e:  # noqa: BLE001
+                yield Violation("cmr-item-raises", f"loading a valid index raises {err_name(e)}", dict(rep, file=_name_id(f)))
+                continue
+            if got != exp or any(_name_id(ds[i]["filename"]) != _name_id(f) or ds[i]["slice_no"] != j for j, i in enumerate(r)):
+                yield Violation("cmr-item-not-designated", "CMRxReconDataset item is not the (slice, frame) block its index designates",
+                                dict(rep, file=_name_id(f), expected=exp, observed=got))
+    # (d) build_dataset / build_dataset_from_input give the dataset the class constructor gives
+    from omegaconf import OmegaConf
+
+    from direct.data.datasets_config import CalgaryCampinasConfig, CMRxReconConfig, FastMRIConfig
+
+    for name, cfgcls, root, direct_ds in (
+            ("FastMRI", FastMRIConfig, W.subs[4], lambda: FastMRIDataset(data_root=W.subs[4])),
+            ("CalgaryCampinas", CalgaryCampinasConfig, W.cc, lambda: CalgaryCampinasDataset(data_root=W.cc, crop_outer_slices=True)),
+            ("CMRxRecon", CMRxReconConfig, W.cmr, lambda: CMRxReconDataset(data_root=W.cmr))):
+        ctx.count(("build", name), True, bucket="oracle/build_dataset")
+        extra = {"crop_outer_slices": True} if name == "CalgaryCampinas" else {}
+        ref = _mapping(direct_ds())
+        try:
+            a = build_dataset(name, None, data_root=root, **extra)
+            cfg = OmegaConf.structured(cfgcls(name=name, data_root="/nonexistent/overridden-by-kwargs", **extra))
+            b = build_dataset_from_input(None, cfg, data_root=root)
+            same = _mapping(a) == ref and _mapping(b) == ref
+            err = None
+        except Exception as e:  # noqa: BLE001
+            same, err = False, f"{err_name(e)}: {e}"
+        if not same:
+            key = "cmrxrecon-config-regex-filter-typeerror" if name == "CMRxRecon" and err and "regex_filter" in err else f"build-dataset-{name}"
+            yield Violation(key, f"build_dataset / build_dataset_from_input for {name} does not give the dataset the class "
+                                 f"constructor gives ({err or 'different index mapping'})", {"op": "build", "name": name, "error": err})
+    # (e) ConcatDataset: lengths are taken once at construction; member boundaries; huge indices
+    class _Growing(_Probe):
+        pass
+
+    g = _Growing(1, 3)
+    cd = ConcatDataset([_Probe(0, 2), g, _Probe(2, 4)])
+    before = [cd[i] for i in range(-len(cd), len(cd))]
+    g.n = 7
+    ctx.count(("concat-growing",), True, bucket="oracle/concat/len-once")
+    if len(cd) != 9 or [cd[i] for i in range(-9, 9)] != before:
+        yield Violation("concat-sizes-not-fixed-at-construction", "ConcatDataset re-reads member lengths after construction",
+                        {"op": "concat-growing"})
+    for idx, exc in ((10 ** 15, IndexError), (-10 ** 15, ValueError), (2 ** 70, IndexError)):
+        try:
+            cd[idx]
+            yield Violation("concat-out-of-range-accepted", "a huge index is not rejected", {"op": "concat", "sizes": [2, 3, 4], "index": idx})
+        except exc:
+            pass
+    # (f) no state shared between instances: construction / access order of two objects does not matter
+    ctx.count(("instances",), True, bucket="oracle/instances")
+    mk = [lambda: H5SliceData(root=W.subs[3], kspace_context=1), lambda: FastMRIDataset(data_root=W.subs[2]),
+          lambda: CMRxReconDataset(data_root=W.cmr, kspace_context="time"),
+          lambda: FakeMRIBlobsDataset(sample_size=2, num_coils=2, spatial_shape=(4, 4), seed=11),
+          lambda: SheppLoganDataset(shape=(6, 6, 3), num_coils=1, intensity="PROTON", seed=11)]
+    def _bytes(d, i):
+        try:
+            return d[i]["kspace"].tobytes()
+        except Exception as e:  # noqa: BLE001 - reported by the class checks above
+            return err_name(e)
+
+    first = [m() for m in mk]
+    items1 = [[_bytes(d, i) for i in range(len(d))] for d in first]
+    second = [m() for m in reversed(mk)][::-1]
+    for d in second[::-1]:
+        _perturb(rng)
+        for i in reversed(range(len(d))):
+            _bytes(d, i)
+    items2 = [[_bytes(d, i) for i in range(len(d))] for d in second]
+    if items1 != items2:
+        yield Violation("instances-share-state", "identically constructed datasets differ depending on construction / access order",
+                        {"op": "instances", "differs": [type(d).__name__ for d, x, y in zip(first, items1, items2) if x != y]})
+    # (g) hash randomisation: the same World read in fresh interpreters with different PYTHONHASHSEED
+    ref = world_digest(str(W.dir))
+    for hs in (["4242"] if not (deep or ctx.thorough) else ["0", "1", "7", "4242", "99999"]):
+        ctx.count(("hashseed", hs), True, bucket="oracle/hashseed")
+        env = dict(os.environ, PYTHONHASHSEED=hs, PYTHONDONTWRITEBYTECODE="1", PYTHONWARNINGS="ignore")
+        code = (f"import sys; sys.path.insert(0, {str(pathlib.Path(__file__).resolve().parent.parent)!r}); import boot; "
+                f"import props.c12 as m; print('DIGEST', m.world_digest({str(W.dir)!r}))")
+        r = subprocess.run([sys.executable, "-c", code], env=env, capture_output=True, text=True, timeout=600)
+        got = [ln.split()[1] for ln in r.stdout.split("\n") if ln.startswith("DIGEST")]
+        if r.returncode != 0 or not got:
+            raise RuntimeError("hash-seed subprocess failed: " + (r.stderr or r.stdout)[-500:])
+        if got[0] != ref:
+            yield Violation("hashseed-dependent-dataset", "index mappings / items differ between interpreters with different PYTHONHASHSEED",
+                            {"op": "hashseed", "PYTHONHASHSEED": hs})
 
 
 def _repro(ds, twin, rng, rep, name, zero_slice):
@@ -665,6 +1221,14 @@ def replay(rep: dict) -> bool:
                 return True
             except exc:
                 pass
+        return False
+    if op in ("listing-order", "duplicate", "build", "class", "cmr", "concat-growing", "instances", "hashseed"):
+        ctx = Ctx(PROP, "quick", 0)
+        want = {"listing-order": "directory-listing-order-unsorted", "duplicate": "duplicate-filenames-ranges-not-partition"}.get(op)
+        for v in _oracle_phase2(ctx, False):
+            if v.replay.get("op") == op and (want is None or v.key == want) and \
+                    (op != "build" or v.replay.get("name") == rep.get("name")):
+                return True
         return False
     if op == "fake-call":
         from direct.data.fake import FakeMRIData
